@@ -523,18 +523,54 @@ def spec_selected(spec, tab, fsys, bases):
     return found
 
 
+def realise_fsys(children, where, extroot, counter):
+    """re-create a scanned tree (model shape) on disk"""
+    os.makedirs(where, exist_ok=True)
+    for t in children:
+        full = os.path.join(where, t[1])
+        if t[0] == 0:
+            if len(t) > 2 and t[2]:
+                os.symlink(os.path.join(extroot, 'missing'), full)
+            else:
+                open(full, 'w').close()
+        elif t[2]:
+            counter[0] += 1
+            target = os.path.join(extroot, 'l%d' % counter[0])
+            realise_fsys(t[3], target, extroot, counter)
+            os.symlink(target, full)
+        else:
+            realise_fsys(t[3], full, extroot, counter)
+
+
+def load_corpus():
+    d = os.path.join(common.VERIF, 'corpus', 'C11')
+    out = []
+    if os.path.isdir(d):
+        for fn in sorted(os.listdir(d)):
+            if fn.endswith('.json'):
+                out.append(json.load(open(os.path.join(d, fn))))
+    return out
+
+
 class Scene:
     """a real temp tree (src + build + a link target outside), scanned into the model's shape"""
 
-    def __init__(self, rng, rep=None):
+    def __init__(self, rng, rep=None, fsys=None):
         self.root = common.scratch('c11')
         ext = os.path.join(self.root, 'ext')
         os.makedirs(os.path.join(ext, 'dir', 'sub'))
         for n in ['a.c', 'x.h', 'sub/b.c']:
             open(os.path.join(ext, 'dir', n), 'w').close()
         open(os.path.join(ext, 'file.c'), 'w').close()
-        realise(gen_tree(rng, rng.choice([2, 3, 3, 4]), rep), os.path.join(self.root, 'src'), ext)
-        realise(gen_tree(rng, 1), os.path.join(self.root, 'build'), ext)
+        if fsys is not None:     # a recorded tree (corpus / replay)
+            counter = [0]
+            for r, tr in fsys:
+                realise_fsys(tr, os.path.join(self.root, 'src' if r == 1 else 'build'), ext, counter)
+            for d in ('src', 'build'):
+                os.makedirs(os.path.join(self.root, d), exist_ok=True)
+        else:
+            realise(gen_tree(rng, rng.choice([2, 3, 3, 4]), rep), os.path.join(self.root, 'src'), ext)
+            realise(gen_tree(rng, 1), os.path.join(self.root, 'build'), ext)
         self.fsys = [(1, scan(os.path.join(self.root, 'src'))), (2, scan(os.path.join(self.root, 'build')))]
         self.mfsys = [[r, t] for r, t in self.fsys]
         self.env = mk_env(self.root)
@@ -543,18 +579,19 @@ class Scene:
         shutil.rmtree(self.root, ignore_errors=True)
 
 
-def stage_walk(rep, rng, ntrees, nfilters):
+def stage_walk(rep, rng, ntrees, nfilters, recorded=()):
     """FileFilter.match and _find_files on real trees against the model (policy 0), the model's pruning
     policies against each other, and the implementation against the documented rules (direct oracle)."""
     from bfg9000.builtins.find import _find_files
     from bfg9000.path import Path, Root
     calls, impl, meta = [], [], []
     failures = 0
-    for _ in range(ntrees):
-        sc = Scene(rng, rep)
+    for job in list(recorded) + [None] * ntrees:
+        sc = Scene(rng, rep, fsys=job['fsys'] if job else None)
         try:
-            for _ in range(nfilters):
-                spec = gen_filter_spec(rng, sc.fsys[0][1], rep)
+            for spec in (job['specs'] if job else [None] * nfilters):
+                if spec is None:
+                    spec = gen_filter_spec(rng, sc.fsys[0][1], rep)
                 tab = fn_table(spec['fn'], sc.fsys)
                 ff, mspec = build_filter(spec, tab)
                 if ff is None:
@@ -565,7 +602,13 @@ def stage_walk(rep, rng, ntrees, nfilters):
                     continue
                 bases = ff.bases()
                 seen = []
-                ents = list(_find_files(sc.env, ff, seen))
+                try:
+                    ents = list(_find_files(sc.env, ff, seen))
+                except Exception as e:
+                    failures += 1
+                    rep.fail('_find_files raised %s: %s (filter %r)' % (type(e).__name__, e, spec),
+                             {'kind': 'find', 'spec': spec, 'fsys': sc.fsys, 'raised': repr(e)}, classes=())
+                    continue
                 got = ([(canon_path(p), m.name) for p, m in ents], [canon_path(p) for p in seen])
                 mstarts = [enc_path(b) for b in bases]
                 calls.append(('find.walk', [mspec, sc.mfsys, mstarts, 0]))
@@ -622,7 +665,7 @@ def stage_walk(rep, rng, ntrees, nfilters):
     return dis, failures
 
 
-def stage_session(rep, rng, ntrees, ncalls):
+def stage_session(rep, rng, ntrees, ncalls, recorded=()):
     """find_from_filter with a real BuildContext: results, dist registration, find_dirs, cache hits."""
     from bfg9000.environment import Environment
     from bfg9000.build_inputs import BuildInputs
@@ -632,8 +675,8 @@ def stage_session(rep, rng, ntrees, ncalls):
     binit()
     calls, impl = [], []
     failures = 0
-    for _ in range(ntrees):
-        sc = Scene(rng)
+    for job in list(recorded) + [None] * ntrees:
+        sc = Scene(rng, fsys=job['fsys'] if job else None)
         try:
             env = Environment(abspath(sc.root + '/bfgdir'), None, None, abspath(sc.root + '/src'),
                               abspath(sc.root + '/build'))
@@ -641,10 +684,10 @@ def stage_session(rep, rng, ntrees, ncalls):
             build = BuildInputs(env, Path('build.bfg', Root.srcdir))
             context = builtin.BuildContext(env, build, None)
             context.path_stack.append(builtin.BuildContext.PathEntry(build.bfgpath))
-            specs = [gen_filter_spec(rng, sc.fsys[0][1]) for _ in range(max(2, ncalls // 2))]
+            specs = job['specs'] if job else [gen_filter_spec(rng, sc.fsys[0][1]) for _ in range(max(2, ncalls // 2))]
             tabs = []
             for s in specs:     # extras make the dist part interesting
-                if rng.random() < 0.6 and not s['extra']:
+                if not job and rng.random() < 0.6 and not s['extra']:
                     s['extra'] = ['*.h']
                 tabs.append(fn_table(s['fn'], sc.fsys))
             mcalls, results = [], []
@@ -661,7 +704,13 @@ def stage_session(rep, rng, ntrees, ncalls):
                     continue
                 hit = cache and ff in build['find_cache']
                 rep.count('session:cache-hit=%s' % hit)
-                res = find_from_filter(context, ff, dist=dist, cache=cache)
+                try:
+                    res = find_from_filter(context, ff, dist=dist, cache=cache)
+                except Exception as e:
+                    failures += 1
+                    rep.fail('find_from_filter raised %s: %s (filter %r)' % (type(e).__name__, e, spec),
+                             {'kind': 'find', 'spec': spec, 'fsys': sc.fsys, 'raised': repr(e)}, classes=())
+                    break
                 mcalls.append([mspec, [enc_path(b) for b in ff.bases()], dist, cache])
                 results.append([canon_path(f.path) for f in res])
                 rep.case('session:%r:%s:%s:%s' % (spec, dist, cache, hit), True)
@@ -805,7 +854,8 @@ def run(rep):
     report_dis(rep, dis, found)
     dis = stage_w_nameglob(rep, rng, n // 2)
     report_dis(rep, dis, 0)
-    dis, found = stage_walk(rep, rng, 60 if thorough else 12, 12 if thorough else 8)
+    recorded = [c for c in load_corpus() if c.get('kind') == 'find']
+    dis, found = stage_walk(rep, rng, 60 if thorough else 12, 12 if thorough else 8, recorded)
     if dis and not found:
         found = stage_walk(rep, random.Random(rep.seed + 1), 120, 12)[1]
     report_dis(rep, dis, found)
@@ -818,6 +868,35 @@ def run(rep):
 
 
 def replay(rep, path):
+    """re-run the recorded failing case against the implementation"""
+    from bfg9000.path import Path, Root
     r = json.load(open(path))
-    print(json.dumps(r, indent=1)[:2000])
-    run(rep)
+    kind = r.get('kind')
+    print(json.dumps({k: v for k, v in r.items() if k != 'fsys'}, indent=1, default=str)[:1500])
+    rep.proof_stage()
+    if kind == 'pathglob':
+        g = make_glob(r['pattern'], r['type'], r['root'])
+        gp = Path.ensure(r['pattern'], Root[r['root']])
+        p = Path(r['path'], Root[r['path_root']], directory=r['dir'])
+        got = g.match(p, r['skip']).name
+        want = spec_pathglob(gp, g.type.to_char(), p, r['skip'])
+        rep.case('replay', True)
+        if (got == 'yes') != want:
+            rep.fail('PathGlob(%r, %r).match(%r dir=%r, skip_base=%r) = %s but the documented rules say %s' % (
+                r['pattern'], r['type'], r['path'], r['dir'], r['skip'], got, want), r, classes=())
+    elif kind == 'never':
+        g = make_glob(r['pattern'], r['type'], r['root'])
+        d = Path(r['dir_path'], Root[r['root']], directory=True)
+        q = Path(r['below'], Root[r['root']], directory=r['below_dir'])
+        rep.case('replay', True)
+        if g.match(d, r['skip']).name == 'never' and g.match(q, r['skip']).name == 'yes':
+            rep.fail('PathGlob(%r).match(%r) is never but %r below it matches' % (r['pattern'], r['dir_path'], r['below']),
+                     r, classes=())
+    elif kind in ('find', 'find-exists'):
+        stage_walk(rep, random.Random(rep.seed), 0, 0, [{'fsys': r['fsys'], 'specs': [r['spec']]}])
+    elif kind in ('dist', 'cache'):
+        stage_session(rep, random.Random(rep.seed), 0, 6, [{'fsys': r['fsys'], 'specs': [r['spec']]}])
+    elif kind == 'name':
+        stage_name_probe(rep)
+    else:
+        run(rep)
